@@ -30,8 +30,8 @@ def PrimaryCommitted (t : Txn) (s : Store) : Prop := HasC t.start (s t.primary)
 def PrimaryRolledBack (t : Txn) (s : Store) : Prop := HasR t.start (s t.primary)
 
 /-- no read of key `k`, at any version, is served from a commit record of the transaction -/
-def Invisible (t : Txn) (s : Store) (k : Nat) : Prop :=
-  ∀ v w, readRec (s k).writes v = some w → w.startTs = t.start → w.kind = .rollback
+def Invisible (c : PercCfg) (t : Txn) (s : Store) (k : Nat) : Prop :=
+  ∀ v w, readVisible c (s k).writes v = some w → w.startTs = t.start → w.kind = .rollback
 
 /-- **Atomicity (headline).**  Under the good configuration (the primary key is committed alone
 and first, a failed commit stops the client, `Commit` refuses a rolled-back transaction), in
@@ -48,9 +48,9 @@ theorem C28_atomic (c : ClientCfg) (hc : c.Good) (t : Txn) (wf : TxnWF t) (s0 : 
     (ops : List Op) :
     (PrimaryCommitted t (run c t (Sys.init s0) ops).store →
       ∀ m ∈ t.muts, lockBlocks ((run c t (Sys.init s0) ops).store m.key) t.cv = false →
-        get ((run c t (Sys.init s0) ops).store m.key) t.cv = expected m) ∧
+        get c.perc ((run c t (Sys.init s0) ops).store m.key) t.cv = expected m) ∧
     (¬ PrimaryCommitted t (run c t (Sys.init s0) ops).store →
-      ∀ m ∈ t.muts, Invisible t (run c t (Sys.init s0) ops).store m.key) := by
+      ∀ m ∈ t.muts, Invisible c.perc t (run c t (Sys.init s0) ops).store m.key) := by
   have inv := (SInv.run_inv hc wf ops (SInv.init (c := c) wf fr)).1
   generalize (run c t (Sys.init s0) ops) = y at inv ⊢
   constructor
@@ -62,12 +62,12 @@ theorem C28_atomic (c : ClientCfg) (hc : c.Good) (t : Txn) (wf : TxnWF t) (s0 : 
         simp only [lockBlocks, hl, decide_eq_false_iff_not] at hnb
         exact hnb (by rw [hts]; exact Nat.le_of_lt wf.lt)
       · exact hC
-    exact get_of_committed (wf.ok hm) hk hC hnb
+    exact get_of_committed c.perc (wf.ok hm) hk hC hnb
   · intro hP m hm v w hr hs
     by_cases hk : w.kind = .rollback
     · exact hk
     · exfalso
-      have hC : HasC t.start (y.store m.key) := ⟨w, (readRec_some hr).1, hs, hk⟩
+      have hC : HasC t.start (y.store m.key) := ⟨w, mem_readable (readRec_some hr).1, hs, hk⟩
       by_cases hp : m.key = t.primary
       · exact hP (by unfold PrimaryCommitted; rw [← hp]; exact hC)
       · exact hP (inv.g.c m hm hp hC)
@@ -77,7 +77,7 @@ expired or missing), no later step — client retry with the same versions, dupl
 any earlier RPC, further resolver activity — makes any key of the transaction visible. -/
 theorem C28_final (c : ClientCfg) (hc : c.Good) (t : Txn) (wf : TxnWF t) (s0 : Store) (fr : Fresh t s0)
     (ops later : List Op) (hrb : PrimaryRolledBack t (run c t (Sys.init s0) ops).store) :
-    ∀ m ∈ t.muts, Invisible t (run c t (Sys.init s0) (ops ++ later)).store m.key := by
+    ∀ m ∈ t.muts, Invisible c.perc t (run c t (Sys.init s0) (ops ++ later)).store m.key := by
   have inv1 := (SInv.run_inv hc wf ops (SInv.init (c := c) wf fr)).1
   have h2 := SInv.run_inv hc wf later inv1
   have hrun : run c t (Sys.init s0) (ops ++ later) = run c t (run c t (Sys.init s0) ops) later := by
@@ -109,15 +109,15 @@ back, every lock is resolved, and key 0 is visible at the commit version while k
 not. -/
 theorem C28_fails_asis_grouped (c : ClientCfg) (hc : c.commitOrder = .regionGrouped) :
     PrimaryRolledBack wGrouped (run c wGrouped (Sys.init Store.empty) wGroupedOps).store ∧
-    get ((run c wGrouped (Sys.init Store.empty) wGroupedOps).store 0) 12 = .val 100 ∧
-    get ((run c wGrouped (Sys.init Store.empty) wGroupedOps).store 1) 12 = .notFound ∧
-    get ((run c wGrouped (Sys.init Store.empty) wGroupedOps).store 2) 12 = .notFound := by
-  obtain ⟨o, b1, ⟨b2⟩⟩ := c
+    get c.perc ((run c wGrouped (Sys.init Store.empty) wGroupedOps).store 0) 12 = .val 100 ∧
+    get c.perc ((run c wGrouped (Sys.init Store.empty) wGroupedOps).store 1) 12 = .notFound ∧
+    get c.perc ((run c wGrouped (Sys.init Store.empty) wGroupedOps).store 2) 12 = .notFound := by
+  obtain ⟨o, b1, ⟨b2, b3⟩⟩ := c
   simp only at hc
   subst hc
   refine ⟨⟨⟨10, 10, .rollback⟩, ?_, rfl, rfl⟩, ?_⟩
-  · cases b1 <;> cases b2 <;> decide
-  · cases b1 <;> cases b2 <;> decide
+  · cases b1 <;> cases b2 <;> cases b3 <;> decide
+  · cases b1 <;> cases b2 <;> cases b3 <;> decide
 
 /-- primary key 0 in region 1, key 1 in region 2 -/
 def wCAR : Txn :=
@@ -136,14 +136,14 @@ C18 defect), the client is told its primary committed after it was rolled back, 
 secondary: key 1 is visible at the commit version, the primary never is. -/
 theorem C28_fails_asis_commit_after_rollback (c : ClientCfg) (hc : c.perc.commitNoLockRejectsRollback = false) :
     PrimaryRolledBack wCAR (run c wCAR (Sys.init Store.empty) wCAROps).store ∧
-    get ((run c wCAR (Sys.init Store.empty) wCAROps).store 0) 12 = .notFound ∧
-    get ((run c wCAR (Sys.init Store.empty) wCAROps).store 1) 12 = .val 101 := by
-  obtain ⟨o, b1, ⟨b2⟩⟩ := c
+    get c.perc ((run c wCAR (Sys.init Store.empty) wCAROps).store 0) 12 = .notFound ∧
+    get c.perc ((run c wCAR (Sys.init Store.empty) wCAROps).store 1) 12 = .val 101 := by
+  obtain ⟨o, b1, ⟨b2, b3⟩⟩ := c
   simp only at hc
   subst hc
   refine ⟨⟨⟨10, 10, .rollback⟩, ?_, rfl, rfl⟩, ?_⟩
-  · cases o <;> cases b1 <;> decide
-  · cases o <;> cases b1 <;> decide
+  · cases o <;> cases b1 <;> cases b3 <;> decide
+  · cases o <;> cases b1 <;> cases b3 <;> decide
 
 /-! ### what holds for every configuration -/
 
@@ -166,7 +166,7 @@ theorem C28_partial_per_key (c : ClientCfg) (_hc : True) (t : Txn) (wf : TxnWF t
          HasR t.start ((run c t (Sys.init s0) ops).store m.key)) ∧
       (HasC t.start ((run c t (Sys.init s0) ops).store m.key) →
         lockBlocks ((run c t (Sys.init s0) ops).store m.key) t.cv = false →
-        get ((run c t (Sys.init s0) ops).store m.key) t.cv = expected m) := by
+        get c.perc ((run c t (Sys.init s0) ops).store m.key) t.cv = expected m) := by
   have init : PInv t (Sys.init s0) := by
     refine ⟨fun m hm => ⟨fr.uniq m hm, ?_, ?_, ?_, ?_⟩, by intro cv h; simp [Sys.init] at h⟩
     · intro w hw hs; exact absurd hs (fr.norec m hm w hw)
@@ -176,7 +176,7 @@ theorem C28_partial_per_key (c : ClientCfg) (_hc : True) (t : Txn) (wf : TxnWF t
   have inv := PInv.run_inv (c := c) wf ops init
   intro m hm
   have hk := inv.k m hm
-  exact ⟨hk.recs, not_C_and_R hk, fun hC hnb => get_of_committed (wf.ok hm) hk hC hnb⟩
+  exact ⟨hk.recs, not_C_and_R hk, fun hC hnb => get_of_committed c.perc (wf.ok hm) hk hC hnb⟩
 
 /-! ### non-vacuity -/
 
@@ -185,7 +185,8 @@ example : ClientCfg.good.Good := by decide
 /-- the good client on the first witness: the primary's commit fails first, nothing is visible -/
 example :
     let y := run ClientCfg.good wGrouped (Sys.init Store.empty) wGroupedOps
-    get (y.store 0) 12 = .notFound ∧ get (y.store 1) 12 = .notFound ∧ get (y.store 2) 12 = .notFound := by
+    get ClientCfg.good.perc (y.store 0) 12 = .notFound ∧ get ClientCfg.good.perc (y.store 1) 12 = .notFound ∧
+      get ClientCfg.good.perc (y.store 2) 12 = .notFound := by
   decide
 
 /-- the good client, fault-free run with a lost reply and a duplicate: everything is visible -/
@@ -193,7 +194,8 @@ example :
     let y := run ClientCfg.good wGrouped (Sys.init Store.empty)
       [.deliver, .notLeader, .deliver, .deliver, .redeliver 0, .deliver, .lose, .check 50, .resolve [2]]
     PrimaryCommitted wGrouped y.store ∧
-    get (y.store 0) 12 = .val 100 ∧ get (y.store 1) 12 = .val 101 ∧ get (y.store 2) 12 = .val 102 := by
+    get ClientCfg.good.perc (y.store 0) 12 = .val 100 ∧ get ClientCfg.good.perc (y.store 1) 12 = .val 101 ∧
+    get ClientCfg.good.perc (y.store 2) 12 = .val 102 := by
   refine ⟨⟨⟨12, 10, .put⟩, ?_, rfl, by decide⟩, ?_⟩ <;> decide
 
 end NoKV.Props.C28
